@@ -22,6 +22,8 @@ var HostileTokens = []string{
 	"&Tab;", "&NewLine;", "&#9;", "&#10;", "&#11;", "&#12;", "&#128;", "&#159;", "&#x80;", "&#x9f;", "&#xD800;", "&#1114112;", "&#x1b;&#x5b;2J",
 	"&amp;#27;[2J", "&lt;b&gt;", "&nbsp;", "&zwj;", "&#x200e;", "&#8238;",
 	"\xff\xfe", "\xc3\x28", "\xed\xa0\x80", "\xc2", "\xe2\x82",
+	// percent-encoded: harmless as text, hostile if some layer decodes them after the string was sanitised
+	"%1B%5B2J", "%1b]0;t%07", "%C2%9B31m", "%7F", "%0D%0A", "%00", "%1B",
 }
 
 var benignWords = []string{"hello", "world", "lorem", "ipsum", "a", "of", "the", "fediverse", "Ünïcödé", "世界", "😀", "x_y", "1984", "it's", "\"quoted\"", "50%", "a&b", "<3", "->"}
@@ -183,6 +185,10 @@ func GenHostileGemtext(t *rapid.T, s StrSrc) string {
 	n := rapid.IntRange(1, 6).Draw(t, "ngem")
 	lines := []string{}
 	for i := 0; i < n; i++ {
+		if rapid.IntRange(0, 7).Draw(t, "gemfence") == 0 {
+			lines = append(lines, rapid.SampledFrom([]string{"```", "```\n```", "``` alt text\n```", "```\n\n```"}).Draw(t, "fence"))
+			continue
+		}
 		x := s(t, "gemtext")
 		lines = append(lines, rapid.SampledFrom([]string{"", "=> ", "=>", "# ", "## ", "### ", "* ", "> ", "```", "=> https://x.test/ "}).Draw(t, "gemprefix")+x)
 	}
@@ -429,6 +435,11 @@ func Corrupt(t *rapid.T, v any, p int) (any, int) {
 			return x
 		case []any:
 			for i := range x {
+				if rapid.IntRange(0, 99).Draw(t, "corruptelem?") < p/2 {
+					count++
+					x[i] = rapid.SampledFrom(junkValues).Draw(t, "junkelem")
+					continue
+				}
 				x[i] = walk(x[i], depth+1)
 			}
 			return x
